@@ -272,3 +272,118 @@ func checkC10Conc(c *c10ConcCase, o *core.Obs) error {
 }
 
 func TestC10Conc(t *testing.T) { core.Run(t, "C10", genC10Conc, checkC10Conc) }
+
+// ---- part (c): the lossless coder's and decoder's parallel sections ----
+
+type c10LLCase struct {
+	C12        *c12Case
+	Goroutines int
+	Procs      int
+}
+
+func genC10LL(t *rapid.T) *c10LLCase {
+	c := &c10LLCase{C12: genC12(t)}
+	// lossless only, sized to engage the tile-parallel and range-parallel sections
+	if !c.C12.Opts.Lossless {
+		c.C12.Opts = gen.DrawLosslessOpts(t)
+	}
+	if rapid.IntRange(0, 3).Draw(t, "q90") != 0 {
+		c.C12.Opts.SetQuality(float32(rapid.IntRange(90, 100).Draw(t, "q")))
+	}
+	if c.C12.Img.W*c.C12.Img.H < 50000 || rapid.Bool().Draw(t, "llredraw") {
+		w := rapid.IntRange(200, 400).Draw(t, "llw")
+		h := 50001/w + 1 + rapid.IntRange(0, 160).Draw(t, "llh")
+		content := rapid.SampledFrom([]string{"regions", "regions", "bands", "bands", "bands", "tiled", "photo", "pal16"}).Draw(t, "llcontent")
+		c.C12.Img = &gen.Img{W: w, H: h, Kind: "nrgba", Place: "tight", Content: content, Alpha: "opaque", Colors: 300}
+		c.C12.Img.Pix = gen.RenderContent(w, h, content, "opaque", rapid.Uint64().Draw(t, "llseed"))
+	}
+	if c.C12.Opts.Method > 4 {
+		c.C12.Opts.Method = 4
+	}
+	c.Goroutines = rapid.IntRange(1, 3).Draw(t, "llgoroutines")
+	c.Procs = rapid.SampledFrom([]int{3, 4, 5, 8, 16}).Draw(t, "llprocs")
+	return c
+}
+
+func checkC10LL(c *c10LLCase, o *core.Obs) error {
+	hookMu.Lock()
+	defer hookMu.Unlock()
+	old := runtime.GOMAXPROCS(c.Procs)
+	defer runtime.GOMAXPROCS(old)
+	img := c.C12.Img.Build()
+	// reference: every parallel site pinned to one worker
+	verifhook.OnWorkers = func(site string, n int) int { return 1 }
+	flushPools()
+	ref, err := encodeImg(img, c.C12.Opts)
+	var refPix []byte
+	if err == nil {
+		if d, e := decodeBytes(ref); e == nil {
+			refPix = viewOf(d, nil).Pix
+		} else {
+			err = e
+		}
+	}
+	verifhook.OnWorkers = nil
+	if err != nil {
+		return fmt.Errorf("single-worker reference: %v", err)
+	}
+	engaged := map[string]bool{}
+	var emu sync.Mutex
+	verifhook.OnWorkers = func(site string, n int) int {
+		if n > 1 {
+			emu.Lock()
+			engaged[site] = true
+			emu.Unlock()
+		}
+		return n
+	}
+	defer func() { verifhook.OnWorkers = nil }()
+	errs := make([]error, c.Goroutines)
+	werr := withWatchdog(240*time.Second, func() error {
+		var wg sync.WaitGroup
+		for g := 0; g < c.Goroutines; g++ {
+			wg.Add(1)
+			go func(g int) {
+				defer wg.Done()
+				for rep := 0; rep < 2; rep++ {
+					got, e := encodeImg(img, c.C12.Opts)
+					if e != nil {
+						errs[g] = e
+						return
+					}
+					if !bytes.Equal(got, ref) {
+						errs[g] = fmt.Errorf("lossless Encode with %d-way parallel sections (goroutine %d of %d, GOMAXPROCS %d) gives %d bytes, with every parallel section pinned to one worker %d bytes", c.Procs, g, c.Goroutines, c.Procs, len(got), len(ref))
+						return
+					}
+					d, e := decodeBytes(got)
+					if e != nil || !bytes.Equal(viewOf(d, nil).Pix, refPix) {
+						errs[g] = fmt.Errorf("parallel lossless Decode differs from the single-worker decode (err=%v)", e)
+						return
+					}
+				}
+			}(g)
+		}
+		wg.Wait()
+		return nil
+	})
+	if werr != nil {
+		return werr
+	}
+	for _, e := range errs {
+		if e != nil {
+			return e
+		}
+	}
+	sites := ""
+	for s := range engaged {
+		sites += s + ","
+		o.Label("site=" + s)
+	}
+	o.SampleJSON = map[string]any{"img": c.C12.Img.Summary(), "opts": c.C12.Opts.Summary(), "procs": c.Procs, "goroutines": c.Goroutines}
+	if len(engaged) > 0 {
+		o.NonTrivial("ll|p%d g%d|m%d|%d sites|%s", c.Procs, c.Goroutines, c.C12.Opts.Method, len(engaged), c.C12.Img.Content)
+	}
+	return nil
+}
+
+func TestC10Lossless(t *testing.T) { core.Run(t, "C10", genC10LL, checkC10LL) }
